@@ -133,7 +133,9 @@ def dispatch(rec):
 
         try:
             return lemma.replay_lemma(rec["witness"], rec.get("clause"))
-        except Exception as e:
+        except (KeyboardInterrupt, SystemExit):
+            raise
+        except BaseException as e:
             return {"reproduced": None, "error": f"{type(e).__name__}: {e}\n{traceback.format_exc()[-1500:]}"}
     fn = globals().get("replay_" + prop)
     if fn is None and isinstance(rec.get("witness"), dict) and "facts" in rec["witness"]:
@@ -164,7 +166,9 @@ def dispatch(rec):
         return {"reproduced": None, "error": f"no replay function for {prop}"}
     try:
         return fn(rec["witness"], rec.get("clause"))
-    except Exception as e:
+    except (KeyboardInterrupt, SystemExit):
+        raise
+    except BaseException as e:  # includes the engine's control-flow exceptions raised by shared lemma code
         return {"reproduced": None, "error": f"{type(e).__name__}: {e}\n{traceback.format_exc()[-1500:]}"}
 
 
